@@ -130,7 +130,7 @@ impl UiDocumentsCache {
     {
         use std::collections::hash_map::Entry;
         let path = path.as_ref(); // user specified path to be kept in UiDocument object
-        let doc = match self.docs.entry(path.canonicalize_utf8()?) {
+        let doc = match self.docs.entry(cache_key(path)?) {
             Entry::Occupied(e) => e.into_mut(),
             Entry::Vacant(e) => e.insert(UiDocument::read(path)?),
         };
@@ -142,8 +142,7 @@ impl UiDocumentsCache {
     where
         P: AsRef<Utf8Path>,
     {
-        path.as_ref()
-            .canonicalize_utf8()
+        cache_key(path.as_ref())
             .ok()
             .and_then(|p| self.docs.get(&p))
     }
@@ -161,11 +160,26 @@ impl UiDocumentsCache {
     where
         P: AsRef<Utf8Path>,
     {
-        path.as_ref()
-            .canonicalize_utf8()
+        cache_key(path.as_ref())
             .ok()
             .and_then(|p| self.docs.remove(&p))
     }
+}
+
+/// Builds the key to look up the cached document for the specified path.
+///
+/// The directory part is canonicalized so the same file is found by different spellings of
+/// its path. The file name is kept as is since it determines the type name of the document:
+/// a symbolic link to a QML file of a different name is a different component.
+fn cache_key(path: &Utf8Path) -> io::Result<Utf8PathBuf> {
+    let file_name = path
+        .file_name()
+        .ok_or_else(|| io::Error::other("no file name part in path"))?;
+    let dir = match path.parent() {
+        Some(p) if !p.as_str().is_empty() => p.canonicalize_utf8()?,
+        _ => Utf8Path::new(".").canonicalize_utf8()?,
+    };
+    Ok(dir.join(file_name))
 }
 
 fn new_parser() -> Parser {
